@@ -168,6 +168,11 @@ fn reading_lattice_build(s: TimeScale, leap: &[(i64, i64)]) -> Vec<i128> {
         base.push(t - z);
         base.push(t + o as i128 * NS_S - z);
         base.push(t + (o as i128 - 1) * NS_S - z);
+        // the mirror images of the table's instants about the count origin (where the x == -x equality of durations would
+        // make a comparison against a table entry answer for the wrong side of 1900)
+        base.push(-t);
+        base.push(-t - z);
+        base.push(-(t + o as i128 * NS_S));
     }
     // the constants of the scales themselves, and their mirror images about zero, as readings and as TAI counts: offsets
     // between references (19 s, 33 s, 32.184 s), reference dates seen from another scale. A comparison with such a constant
